@@ -162,10 +162,10 @@ def _cover(ob, budget):
         s.add(f)
     text = s.to_smt2()
     t0 = time.time()
-    s.set("timeout", 3000)
+    s.set("timeout", 2000)
     if s.check() == z3.sat:
         return {"verdict": "discharged", "backend": "cover-sat(z3 model)", "seconds": round(time.time() - t0, 3)}, text
-    fr, k, fout = solve.run_finite(text, kmax=budget.get("kmax_cover", 4))
+    fr, k, fout = solve.run_finite(text, kmax=budget.get("kmax_cover", 3), ints=False, timeout_s=2)  # a cover is a vacuity indicator: cheap attempt only
     dt = time.time() - t0
     if fr == "sat":
         return {"verdict": "discharged", "backend": f"cover-sat(k={k})", "seconds": round(dt, 3)}, text
